@@ -71,6 +71,44 @@ func main() {
 			}
 			c.Case(e2e.EngCaseTerm(h), histJSON(i, h, len(h)-1), e2e.EngKey(h), changed >= 2)
 		}
+		// targeted shapes (harness/e2e/c01_shapes.go): names reached through labels, the temporary directory after a failed
+		// build, filegroups of directories, tools rebuilt to byte-identical outputs (cut-off through tools = [...])
+		shapes := e2e.EngRunShapes(c.Rng.Fork(), base+"/shapes", c.Scale(1, 30), c.Scale(4, 6), 8)
+		for ki, kind := range e2e.ShapeKinds {
+			for hi, h := range shapes[kind] {
+				id := 2000 + 100*ki + hi
+				bad := false
+				for k := range h {
+					bad = bad || h[k].TimedOut || h[k].Exit == -9 || h[k].CleanExit == -9
+				}
+				if bad {
+					c.Hist("edit", "timed-out")
+					continue
+				}
+				changed := 0
+				for k := range h {
+					st := &h[k]
+					c.Hist("edit", st.Edit.Kind)
+					if k == 0 {
+						continue
+					}
+					changed++
+					if st.Exit == 0 && h[k-1].Exit == 0 {
+						c.Oracle()
+						for _, l := range st.Executed {
+							if why := e2e.EngAllowed(&h[k-1], st, l); why == "" {
+								c.Fail("unneeded-rerun-"+kind, fmt.Sprintf("%s ran again after %v although its definition, its source files and the clean outputs of its dependencies and tools are unchanged", l, st.Edit), histJSON(id, h, k))
+							} else {
+								c.Hist("reason", why)
+							}
+						}
+					}
+				}
+				if e2e.ShapeModelled(kind) {
+					c.Case(e2e.EngCaseTerm(h), histJSON(id, h, len(h)-1), e2e.EngKey(h), changed >= 2)
+				}
+			}
+		}
 	})
 }
 
